@@ -19,8 +19,10 @@
 package c04
 
 import (
+	"encoding/json"
 	"errors"
 	"fmt"
+	"os"
 	"regexp"
 	"runtime"
 	"sort"
@@ -99,11 +101,9 @@ func (prop) Work(c core.Case) core.Result {
 	for i := range cd.Inputs {
 		in := &cd.Inputs[i]
 		t0 := cpuMillis()
-		if cd.Solo {
-			w.runSolo(i, in, cd.BudgetMS)
-		} else {
-			w.runInput(i, in)
-		}
+		// every input runs under the hang monitor; in a batch a hang verdict ends
+		// the child (the driver re-queues the other inputs of the batch)
+		w.runSolo(i, in, cd.BudgetMS, !cd.Solo && len(cd.Inputs) > 1)
 		if ms := cpuMillis() - t0; ms > out.MaxMS {
 			out.MaxMS, out.MaxIdx = ms, i
 		}
@@ -297,9 +297,23 @@ func (w *worker) runInput(i int, in *bytesgen.Input) {
 	w.apiCalls(i, in, func(api string) bool { return w.census(i, in, api) })
 }
 
+// hangMarker introduces, on the child's stderr, the verdict of the hang monitor
+// of a batch case: the child then exits (it still hosts the hanging call) and the
+// driver reads the verdict from the crash report.
+const hangMarker = "C04-HANG-VERDICT "
+
+// giveUp ends the worker child after a hang verdict in a batch case.
+func giveUp(f flagged) {
+	f.Detail = core.Truncate(f.Detail, 1800)
+	b, _ := json.Marshal(f)
+	fmt.Fprintf(os.Stderr, "\n%s%s\n", hangMarker, b)
+	os.Exit(4)
+}
+
 // runSolo runs the API calls of one input in their own goroutine and samples CPU
-// time and goroutine states from the case goroutine.
-func (w *worker) runSolo(i int, in *bytesgen.Input, budget int64) {
+// time and goroutine states from the case goroutine. With exitOnHang (batch
+// cases) a hang verdict ends the child, see giveUp.
+func (w *worker) runSolo(i int, in *bytesgen.Input, budget int64, exitOnHang bool) {
 	if budget <= 0 {
 		budget = cpuBudgetMS
 	}
@@ -318,7 +332,6 @@ func (w *worker) runSolo(i int, in *bytesgen.Input, budget int64) {
 	tick := time.NewTicker(25 * time.Millisecond)
 	defer tick.Stop()
 	parkedRun := 0
-	lastCPU := start
 	for {
 		select {
 		case <-done:
@@ -350,10 +363,14 @@ func (w *worker) runSolo(i int, in *bytesgen.Input, budget int64) {
 			} else {
 				w.flag(i, core.Inconclusive, "cpu", hangSite(st), fmt.Sprintf("build still running after %d CPU-ms for an input of %d bytes (> 8 KiB: outside the budget claim)", used, in.Size()))
 			}
+			if exitOnHang {
+				giveUp(w.flagged[len(w.flagged)-1])
+			}
 			return
 		}
-		// parked-forever: every goroutine with a scriggo frame is waiting, none is
-		// running, runnable or in a system call, and no CPU is being used.
+		// parked-forever: every goroutine with a scriggo frame is waiting (none is
+		// running, runnable or in a system call). Building uses no timers and no
+		// goroutines other than the lexer's, so nothing can wake them up.
 		var sg []gor
 		allParked := true
 		for _, g := range allGoroutines() {
@@ -364,18 +381,20 @@ func (w *worker) runSolo(i int, in *bytesgen.Input, budget int64) {
 				}
 			}
 		}
-		if len(sg) > 0 && allParked && now-lastCPU <= 1 {
+		if len(sg) > 0 && allParked {
 			parkedRun++
 		} else {
 			parkedRun = 0
 		}
-		lastCPU = now
-		if parkedRun >= 120 { // 120 consecutive samples, no CPU used in between
+		if parkedRun >= 120 { // 120 consecutive samples (3 s)
 			st := ""
 			for _, g := range sg {
 				st += core.Truncate(g.Stack, 1200) + "\n\n"
 			}
-			w.flag(i, core.Violation, "parked", hangSite(st), fmt.Sprintf("every goroutine with a scriggo frame is parked and the API call has not returned (120 consecutive samples, no CPU used)\ninput: %s\n%s", in.Describe(600), core.Truncate(st, 3000)))
+			w.flag(i, core.Violation, "parked", hangSite(st), fmt.Sprintf("every goroutine with a scriggo frame is parked and the API call has not returned (120 consecutive samples 25 ms apart)\ninput: %s\n%s", in.Describe(600), core.Truncate(st, 3000)))
+			if exitOnHang {
+				giveUp(w.flagged[len(w.flagged)-1])
+			}
 			return
 		}
 	}
@@ -388,4 +407,3 @@ func cpuMillis() int64 {
 	}
 	return (ru.Utime.Sec+ru.Stime.Sec)*1000 + int64(ru.Utime.Usec+ru.Stime.Usec)/1000
 }
-
